@@ -17,7 +17,8 @@ import GoImap.Model.Utf7
 namespace GoImap.RespSpec
 open GoImap.Resp
 
-def str (x : String) : Str := x.toUTF8.toList.map UInt8.toNat
+/-- the bytes of an ASCII string literal -/
+def str (x : String) : Str := x.toList.map Char.toNat
 
 def lowerByte (c : Nat) : Nat := if 65 ≤ c ∧ c ≤ 90 then c + 32 else c
 def upperByte (c : Nat) : Nat := if 97 ≤ c ∧ c ≤ 122 then c - 32 else c
@@ -69,11 +70,13 @@ def validFlag (perm : Bool) (f : Str) : Bool :=
   | 92 :: rest => (perm && rest == [42]) || isAtom rest
   | _ => isAtom f
 
-/-- `mbx-list-flags`: always `"\" atom` -/
+/-- `mbx-list-flags`: always `"\" atom`. Attributes are read by the same production as flags
+    (`flag-extension`); an attribute spelled like a message flag in another case (`\seen`) would come
+    back in the flag's spelling. RFC 9051 §7.3.1 defines no such attribute: outside the domain. -/
 def validAttr (f : Str) : Bool :=
-  match f with
-  | 92 :: rest => isAtom rest
-  | _ => false
+  (match f with
+   | 92 :: rest => isAtom rest
+   | _ => false) && canonOf knownAttrs (canonFlag f) == canonOf knownAttrs f
 
 def validUTF8 (s : Str) : Bool := (Utf7.utf8dec s).isSome
 
